@@ -54,6 +54,10 @@ var targets = []target{
 	{Dir: "pkg/command", Name: "Parse", Lean: "Command_Parse", File: "Command", Uses: []string{"lower"}},
 	{Dir: "pkg/command", Recv: "Command", Name: "Covers", Lean: "Command_Covers", File: "Command"},
 	{Dir: "pkg/command", Recv: "Command", Name: "Join", Lean: "Command_Join", File: "Command"},
+	{Dir: "pkg/command", Name: "Top", Lean: "Command_Top", File: "Command"},
+	{Dir: "pkg/command", Name: "IsValid", Lean: "Command_IsValid", File: "Command", Uses: []string{"lower"}},
+	{Dir: "pkg/command", Name: "New", Lean: "Command_New", File: "Command"},
+	{Dir: "pkg/command", Recv: "Command", Name: "Segments", Lean: "Command_Segments", File: "Command"},
 	{Dir: "pkg/policy", Name: "accumulate", Lean: "accumulate", File: "PolicyAcc"},
 	{Dir: "pkg/policy", Recv: "Policy", Name: "Match", Lean: "Policy_Match", File: "PolicyMatch", Uses: []string{"ext_matchStatement"}},
 	{Dir: "pkg/policy", Recv: "Policy", Name: "PartialMatch", Lean: "Policy_PartialMatch", File: "PolicyMatch", Uses: []string{"ext_matchStatement"}},
@@ -214,6 +218,7 @@ var libCalls = map[string]libCall{
 	"strings.HasPrefix": {"(List.isPrefixOf $2 $1)", boolTy, nil},
 	"strings.HasSuffix": {"(List.isSuffixOf $2 $1)", boolTy, nil},
 	"strings.ToLower":   {"(lower $1)", ty{"Bytes", "string"}, []string{"lower"}},
+	"strings.Split":     {"(splitOn $1 $2)", ty{"(List Bytes)", "[]string"}, nil}, // a non-empty separator (the callers pass a constant)
 }
 
 // methodCalls: library methods, keyed by "GoType.Method".
